@@ -4,8 +4,11 @@
 package c17
 
 import (
+	"encoding/json"
 	"fmt"
 	"math/big"
+	"os"
+	"path/filepath"
 	"regexp"
 	"sort"
 	"strings"
@@ -489,4 +492,22 @@ func init() {
 	vh.Rapid("invert", 12_000, 800_000, genInv, judgeInvert)
 	vh.Rapid("permute", 10_000, 800_000, genPerm, judgePerm)
 	vh.Rapid("remove_included", 10_000, 600_000, genInv, judgeRemove)
+	// cases that earlier runs shrank to (kept as plans under testdata/)
+	vh.Enum("remove_regressions", func(yield func(docgen.Plan) bool) {
+		if vh.Cfg().Shard != 0 {
+			return
+		}
+		files, _ := filepath.Glob(filepath.Join(vh.Cfg().Root, "checks", "c17", "testdata", "remove-*.json"))
+		sort.Strings(files)
+		for _, f := range files {
+			data, err := os.ReadFile(f)
+			if err != nil {
+				continue
+			}
+			var p docgen.Plan
+			if json.Unmarshal(data, &p) == nil && !yield(p) {
+				return
+			}
+		}
+	}, judgeRemove)
 }
